@@ -103,3 +103,26 @@ pub fn vx_child_insert(tb: &mut HashMap<String, HashMap<String, Vec<Chunk>>>, ch
     requires deep(*old(tb)).dom().contains(child.key@)
     ensures deep(*final(tb)) == deep(*old(tb)).insert(child.key@, deep(*old(tb))[child.key@].insert(b@, l@))
 { unimplemented!() }
+// ---- third region: blocks a child declares must exist in an ancestor
+#[verifier::external_body]
+pub struct Span2 { _p: () }
+pub struct Template2 { pub name: String, pub source: String, pub block_name_spans: HashMap<String, BlockSpan>, pub vx_opaque: VxOpaque }
+pub struct BlockSpan { pub range: core::ops::Range<usize>, pub vx_opaque: VxOpaque }
+#[verifier::external_body]
+pub struct ReportError { _p: () }
+impl ReportError {
+    #[verifier::external_body]
+    pub fn new(msg: String, name: &String, source: &String, span: &BlockSpan) -> ReportError { unimplemented!() }
+    #[verifier::external_body]
+    pub fn generate_report(&self) -> String { unimplemented!() }
+}
+#[verifier::external_body]
+pub fn vx_fmt() -> String { unimplemented!() }
+/// one of the first n ancestors is a registered template that defines block b
+pub open spec fn some_parent_has(t: &Tera, ps: Seq<String>, n: int, b: Name) -> bool {
+    exists|i: int| 0 <= i < n && #[trigger] parent_has(t, ps[i]@, b)
+}
+pub uninterp spec fn parent_has(t: &Tera, parent: Name, b: Name) -> bool;
+/// `parents.iter().any(|p| self.templates.get(p).map(|t| t.blocks.contains_key(b)).unwrap_or(false))`
+#[verifier::external_body]
+pub fn vx_any_parent_has(t: &Tera, ps: &Vec<String>, b: &String) -> (r: bool) ensures r == some_parent_has(t, ps@, ps@.len() as int, b@) { unimplemented!() }
